@@ -16,25 +16,83 @@ Config2_IR_Ruleset *vecit_Config2_IR_Ruleset__ref(vecit_Config2_IR_Ruleset it)
   Config2_IR_Ruleset *p = (it.vid == g_dropin_vid) ? &g_slot_d : &g_slot_r;
   Config2_IR_Ruleset fresh; *p = fresh;
   p->name = __CPROVER_uninterpreted_rsname(it.vid, it.i);
+  __CPROVER_assume(p->dgs.n <= VEC_MAX && p->acts.n <= VEC_MAX);
   if (it.vid == g_root_vid && g_absent) __CPROVER_assume(p->name != g_name_k);
   return p;
 }
 Config2_IR_PrekillHook vecit_Config2_IR_PrekillHook__op_deref(vecit_Config2_IR_PrekillHook it)
 { __CPROVER_assert(it.i < it.n, "UB: dereference of an end() iterator"); return (Config2_IR_PrekillHook)fresh_handle(); }
-/* boundary: the anonymous-namespace compilers (plugin construction; may fail) and Ruleset::mergeWithDropIn */
-uptr_Ruleset ext__compileRuleset(Config2_IR_Ruleset rs, _Bool dropin, PluginConstructionContext c) { if (nondet_bool()) { g_any_fail = 1; return 0; } return (uptr_Ruleset)fresh_handle(); }
+/* ---- compileRuleset (file-local): a ruleset is rejected (nullptr) or built with exactly the configured numbers; it
+ * never throws (C12: "rejected cleanly") ---- */
+uint64_t __CPROVER_uninterpreted_strlen(str_t);
+int __CPROVER_uninterpreted_stoi(str_t); int __CPROVER_uninterpreted_stoi_throws(str_t);
+uint64_t str_t__size(str_t s) { return __CPROVER_uninterpreted_strlen(s); }
+_Bool str_t__empty(str_t s) { return __CPROVER_uninterpreted_strlen(s) == 0; }
+/* std::stoi: the value, or std::invalid_argument / std::out_of_range */
+int ext__stoi(str_t s) { if (__CPROVER_uninterpreted_stoi_throws(s) != 0) ghost_exc = nondet_bool() ? EXC_invalid_argument : EXC_out_of_range; return __CPROVER_uninterpreted_stoi(s); }
+#define NUM_OK(s) (__CPROVER_uninterpreted_stoi_throws(s) == 0 && __CPROVER_uninterpreted_stoi(s) >= 0)
+void Util__trim(str_t s) { }
+uint64_t g_parts_vid, g_bad_i; _Bool g_parts_bad;   /* whether some listed log source (the one at index g_bad_i) is neither "engine" nor "plugins" */
+str_t __CPROVER_uninterpreted_part(uint64_t i);
+vec_str_t Util__split(str_t s, char c) { vec_str_t v; v.vid = g_parts_vid; __CPROVER_assume(v.n <= VEC_MAX && (!g_parts_bad || g_bad_i < v.n)); return v; }
+str_t vec_str_t__elem(uint64_t vid, uint64_t i) { str_t p = __CPROVER_uninterpreted_part(i); if (!g_parts_bad) __CPROVER_assume(p == STR_engine || p == STR_plugins); else if (i == g_bad_i) __CPROVER_assume(p != STR_engine && p != STR_plugins); return p; }
+uint64_t g_sub_fails;                           /* ledger: detector groups / actions that failed to compile */
+uptr_DetectorGroup ext__compileDetectorGroup(Config2_IR_DetectorGroup dg, PluginConstructionContext c) { if (nondet_bool()) { g_sub_fails = g_sub_fails + 1; return 0; } return (uptr_DetectorGroup)fresh_handle(); }
+uptr_BasePlugin ext__compilePlugin(Config2_IR_Action a, PluginConstructionContext c) { if (nondet_bool()) { g_sub_fails = g_sub_fails + 1; return 0; } return (uptr_BasePlugin)fresh_handle(); }
+Config2_IR_DetectorGroup vecit_Config2_IR_DetectorGroup__op_deref(vecit_Config2_IR_DetectorGroup it) { __CPROVER_assert(it.i < it.n, "UB: dereference of an end() iterator"); return (Config2_IR_DetectorGroup)fresh_handle(); }
+Config2_IR_Action vecit_Config2_IR_Action__op_deref(vecit_Config2_IR_Action it) { __CPROVER_assert(it.i < it.n, "UB: dereference of an end() iterator"); return (Config2_IR_Action)fresh_handle(); }
+_Bool Config2_IR_DropIn__get_disable_on_drop_in(Config2_IR_DropIn d) { return nondet_bool(); }
+_Bool Config2_IR_DropIn__get_detectorgroups_enabled(Config2_IR_DropIn d) { return nondet_bool(); }
+_Bool Config2_IR_DropIn__get_actiongroup_enabled(Config2_IR_DropIn d) { return nondet_bool(); }
+str_t PluginConstructionContext__cgroupFs(PluginConstructionContext c) { str_t s; return s; }
+/* the Ruleset constructor call: what it is built from */
+int g_mk_delay, g_mk_timeout; uint32_t g_mk_silenced; uint64_t g_mk_ndg, g_mk_nact, g_mk_calls; str_t g_mk_name;
+uptr_Ruleset ext__make_unique__uptr_Ruleset(str_t name, vec_uptr_DetectorGroup dgs, vec_uptr_BasePlugin acts, _Bool a, _Bool b, _Bool c, uint32_t silenced, int delay, int timeout, str_t xattr, str_t fs, str_t cg)
+{ g_mk_calls = g_mk_calls + 1; g_mk_name = name; g_mk_ndg = dgs.n; g_mk_nact = acts.n; g_mk_silenced = silenced; g_mk_delay = delay; g_mk_timeout = timeout; return (uptr_Ruleset)fresh_handle(); }
+#define LOOPC_ext__compileRuleset_1 \
+  __CPROVER_assigns(__begin2, silenced_logs) \
+  __CPROVER_loop_invariant(__begin2.vid == parts.vid && __end2.vid == parts.vid && __begin2.n == parts.n && __end2.n == parts.n && __end2.i == parts.n && __begin2.i <= parts.n) \
+  __CPROVER_loop_invariant((silenced_logs & ~(uint32_t)3) == 0 && ghost_exc == 0 && (!g_parts_bad || __begin2.i <= g_bad_i)) \
+  __CPROVER_decreases(parts.n - __begin2.i)
+#define LOOPC_ext__compileRuleset_2 \
+  __CPROVER_assigns(__begin1, detector_groups, g_sub_fails) \
+  __CPROVER_loop_invariant(IT_SHAPE(__begin1, __end1, ruleset.dgs) && detector_groups.n == __begin1.i && g_sub_fails == __CPROVER_loop_entry(g_sub_fails) && ghost_exc == 0) \
+  __CPROVER_decreases(ruleset.dgs.n - __begin1.i)
+#define LOOPC_ext__compileRuleset_3 \
+  __CPROVER_assigns(__begin1, actions, g_sub_fails) \
+  __CPROVER_loop_invariant(IT_SHAPE(__begin1, __end1, ruleset.acts) && actions.n == __begin1.i && detector_groups.n == ruleset.dgs.n && g_sub_fails == __CPROVER_loop_entry(g_sub_fails) && ghost_exc == 0) \
+  __CPROVER_decreases(ruleset.acts.n - __begin1.i)
+#define RS_DELAY_OK(r) (__CPROVER_uninterpreted_strlen((r).post_action_delay) == 0 || NUM_OK((r).post_action_delay))
+#define RS_TIMEOUT_OK(r) (__CPROVER_uninterpreted_strlen((r).prekill_hook_timeout) == 0 || NUM_OK((r).prekill_hook_timeout))
+#define RS_STATIC_OK(r, dropin) (__CPROVER_uninterpreted_strlen((r).name) != 0 && (__CPROVER_uninterpreted_strlen((r).silence_logs) == 0 || !g_parts_bad) && \
+                                 ((dropin) || ((r).dgs.n != 0 && (r).acts.n != 0)) && RS_DELAY_OK(r) && RS_TIMEOUT_OK(r))
+#define CONTRACT_compileRuleset \
+  __CPROVER_requires(ghost_exc == 0 && ruleset.dgs.n <= VEC_MAX && ruleset.acts.n <= VEC_MAX) \
+  __CPROVER_assigns(ghost_exc, ghost_exc_caught, g_sub_fails, g_mk_calls, g_mk_name, g_mk_ndg, g_mk_nact, g_mk_silenced, g_mk_delay, g_mk_timeout) \
+  /* rejected cleanly: never an exception, whatever the strings hold */ \
+  __CPROVER_ensures(ghost_exc == 0) /*@C12*/ \
+  /* rejected iff something is wrong with it */ \
+  __CPROVER_ensures((__CPROVER_return_value != 0) == (RS_STATIC_OK(ruleset, dropin) && g_sub_fails == __CPROVER_old(g_sub_fails))) /*@C12*/ \
+  /* honoured exactly: the ruleset is built from every group and action, with the configured numbers (defaults 15 s / 5 s) */ \
+  __CPROVER_ensures(__CPROVER_return_value == 0 || (g_mk_calls == __CPROVER_old(g_mk_calls) + 1 && g_mk_name == ruleset.name && g_mk_ndg == ruleset.dgs.n && g_mk_nact == ruleset.acts.n && \
+      g_mk_delay == (__CPROVER_uninterpreted_strlen(ruleset.post_action_delay) == 0 ? 15 : __CPROVER_uninterpreted_stoi(ruleset.post_action_delay)) && \
+      g_mk_timeout == (__CPROVER_uninterpreted_strlen(ruleset.prekill_hook_timeout) == 0 ? 5 : __CPROVER_uninterpreted_stoi(ruleset.prekill_hook_timeout)) && \
+      (g_mk_silenced & ~(uint32_t)3) == 0)) /*@C12*/
+uptr_Ruleset ext__compileRuleset(Config2_IR_Ruleset ruleset, _Bool dropin, PluginConstructionContext context) CONTRACT_compileRuleset;
+/* boundary: compilePrekillHook (plugin construction; may fail) and Ruleset::mergeWithDropIn */
 uptr_PrekillHook ext__compilePrekillHook(Config2_IR_PrekillHook h, PluginConstructionContext c) { if (nondet_bool()) { g_any_fail = 1; return 0; } return (uptr_PrekillHook)fresh_handle(); }
 _Bool Ruleset__mergeWithDropIn(Ruleset r, uptr_Ruleset d) { if (nondet_bool()) { g_any_fail = 1; return 0; } return 1; }
 
+#define CR_GHOSTS ghost_exc, ghost_exc_caught, g_sub_fails, g_mk_calls, g_mk_name, g_mk_ndg, g_mk_nact, g_mk_silenced, g_mk_delay, g_mk_timeout
 #define IT_SHAPE(b, e, v) ((b).vid == (v).vid && (e).vid == (v).vid && (b).n == (v).n && (e).n == (v).n && (e).i == (v).n && (b).i <= (v).n)
 #define LOOPC_Config2__compileDropIn_1 \
-  __CPROVER_assigns(__begin2, ret.rulesets, g_slot_d, g_slot_r, g_any_fail) \
+  __CPROVER_assigns(__begin2, ret.rulesets, g_slot_d, g_slot_r, g_any_fail, CR_GHOSTS) \
   __CPROVER_loop_invariant(IT_SHAPE(__begin2, __end2, dropin.rulesets) && ret.rulesets.n == __begin2.i && ret.prekill_hooks.n == 0 && !g_any_fail && ghost_exc == 0) \
   /* the watched drop-in ruleset cannot be passed if the base config lacks its name */ \
   __CPROVER_loop_invariant(!(g_absent && g_k < __begin2.i)) \
   __CPROVER_decreases(dropin.rulesets.n - __begin2.i)
 #define LOOPC_Config2__compileDropIn_2 \
-  __CPROVER_assigns(__begin3, g_slot_r, g_any_fail) \
+  __CPROVER_assigns(__begin3, g_slot_r, g_any_fail, CR_GHOSTS) \
   __CPROVER_loop_invariant(IT_SHAPE(__begin3, __end3, root.rulesets) && !found_target && ret.rulesets.n == __begin2.i && !g_any_fail && ghost_exc == 0) \
   __CPROVER_decreases(root.rulesets.n - __begin3.i)
 #define LOOPC_Config2__compileDropIn_3 \
@@ -45,7 +103,7 @@ opt_DropInUnit Config2__compileDropIn(Config2_IR_Root root, Config2_IR_Root drop
   __CPROVER_requires(root.rulesets.vid == g_root_vid && dropin.rulesets.vid == g_dropin_vid && g_root_vid != g_dropin_vid && ghost_exc == 0 && !g_any_fail)
   __CPROVER_requires(root.rulesets.n <= VEC_MAX && dropin.rulesets.n <= VEC_MAX && dropin.prekill_hooks.n <= VEC_MAX)
   __CPROVER_requires(g_name_k == __CPROVER_uninterpreted_rsname(g_dropin_vid, g_k))
-  __CPROVER_assigns(g_slot_d, g_slot_r, g_any_fail)
+  __CPROVER_assigns(g_slot_d, g_slot_r, g_any_fail, CR_GHOSTS)
   /* a drop-in naming a ruleset the base config does not have is rejected as a whole */
   __CPROVER_ensures(!(g_absent && g_k < dropin.rulesets.n) || !__CPROVER_return_value.has) /*@C13*/
   /* any plugin-construction or merge failure rejects the whole drop-in */
@@ -54,5 +112,6 @@ opt_DropInUnit Config2__compileDropIn(Config2_IR_Root root, Config2_IR_Root drop
   __CPROVER_ensures(!__CPROVER_return_value.has || (__CPROVER_return_value.val.rulesets.n == dropin.rulesets.n && __CPROVER_return_value.val.prekill_hooks.n == dropin.prekill_hooks.n)) /*@C13*/
   __CPROVER_ensures(ghost_exc == 0);
 #define CANARY __CPROVER_assert(0, "canary: contract precondition satisfiable and function exit reachable")
+void h_compileRuleset(void) { Config2_IR_Ruleset r; _Bool d; PluginConstructionContext c; HAVOC(ghost_exc); HAVOC(g_sub_fails); HAVOC(g_mk_calls); HAVOC(g_parts_vid); HAVOC(g_parts_bad); HAVOC(g_bad_i); ext__compileRuleset(r, d, c); CANARY; }
 void h_compileDropIn(void) { Config2_IR_Root r, d; PluginConstructionContext c; HAVOC(g_k); HAVOC(g_root_vid); HAVOC(g_dropin_vid); HAVOC(g_name_k); HAVOC(g_absent); HAVOC(g_any_fail); HAVOC(ghost_exc);
   Config2__compileDropIn(r, d, c); CANARY; }
